@@ -7,6 +7,7 @@ import (
 	"context"
 	"fmt"
 	"sort"
+	"strings"
 	"sync/atomic"
 
 	"github.com/0chain/common/core/statecache"
@@ -282,6 +283,19 @@ func GenOpsP(rt *rapid.T, model map[string][]byte, used *[]string, n, maxBytes, 
 		}
 		p := GenPath(rt, *used, maxBytes, label+"_p")
 		v := GenValue(rt, label+"_v")
+		if len(live) > 0 && gen.Chance(rt, 12, label+"_twin") {
+			// a twin of a live key: one nibble differs, the rest of the path and the value are the same (two leaves
+			// whose remaining path and value coincide and that differ only by their position)
+			if base := gen.Pick(rt, live, label+"_tb"); len(base) > 0 {
+				j := gen.Uniform(rt, 0, len(base)-1, label+"_tj")
+				nib := "0123456789abcdef"[gen.Uniform(rt, 0, 15, label+"_tn")]
+				if nib == base[j] {
+					nib = "123456789abcdef0"[strings.IndexByte("0123456789abcdef", nib)]
+				}
+				p = base[:j] + string(nib) + base[j+1:]
+				v = append([]byte(nil), model[base]...)
+			}
+		}
 		ops = append(ops, Op{Kind: "ins", Path: p, Val: fmt.Sprintf("%x", v)})
 		model[p] = v
 		*used = append(*used, p)
